@@ -16,6 +16,8 @@ Require Import UPV.Corr.Corr_C01.
 
 Record case := {
   c_init : list (N * list value * value);
+  c_keys : list gfl;                    (* every ground fluent of the problem (also those with integer arguments,
+                                           which [ground_fluents P] does not enumerate): final states are compared here *)
   c_plan : list inst;
   c_raised : bool;                      (* convert_to raised UPUsageError *)
   c_edges : list (inst * inst);         (* edges of the returned PartialOrderPlan *)
@@ -32,12 +34,14 @@ Definition perm_b (a b : list inst) : bool :=
 Definition topo_b (G : list (inst * inst)) (nodes pl' : list inst) : bool :=
   perm_b nodes pl' && forallb (fun e => before_b pl' (fst e) (snd e)) G.
 
-Definition final_obs (sc : bool) (P : problem) (s0 : state) (pl : list inst) : option (list (option value)) :=
-  option_map (obs_of_state P) (run P (spec_step sc P) s0 pl).
+Definition final_obs (sc : bool) (P : problem) (keys : list gfl) (s0 : state) (pl : list inst)
+  : option (list (option value)) :=
+  option_map (fun s => map (fun k => s (fst k) (snd k)) keys) (run P (spec_step sc P) s0 pl).
 
 (* a linearisation is fine: valid and same final state *)
-Definition lin_ok (sc : bool) (P : problem) (s0 : state) (ref : option (list (option value))) (pl' : list inst) : bool :=
-  valid_plan sc P s0 pl' && oobs_eqb (final_obs sc P s0 pl') ref.
+Definition lin_ok (sc : bool) (P : problem) (keys : list gfl) (s0 : state) (ref : option (list (option value)))
+  (pl' : list inst) : bool :=
+  valid_plan sc P s0 pl' && oobs_eqb (final_obs sc P keys s0 pl') ref.
 
 Fixpoint first_bad {A} (f : A -> bool) (i : N) (l : list A) : N :=
   match l with [] => 0%N | x :: r => if f x then first_bad f (N.succ i) r else N.succ i end.
@@ -68,11 +72,11 @@ Definition code (P : problem) (c : case) : N :=
   else
     let reach_bit := match model with Some G => negb (same_reach_b n G (c_edges c)) | None => false end in
     let valid_s := valid_plan false P s0 pl in
-    let ref_s := final_obs false P s0 pl in
-    let bad_s := first_bad (lin_ok false P s0 ref_s) 0%N (c_lins c) in
+    let ref_s := final_obs false P (c_keys c) s0 pl in
+    let bad_s := first_bad (lin_ok false P (c_keys c) s0 ref_s) 0%N (c_lins c) in
     let valid_c := valid_plan true P s0 pl in
-    let ref_c := final_obs true P s0 pl in
-    let bad_c := first_bad (lin_ok true P s0 ref_c) 0%N (c_lins c) in
+    let ref_c := final_obs true P (c_keys c) s0 pl in
+    let bad_c := first_bad (lin_ok true P (c_keys c) s0 ref_c) 0%N (c_lins c) in
     let topo_bad := negb (forallb (topo_b (c_edges c) pl) (c_lins c)) in
     let CE := closure n (c_edges c) in
     let order_bad := negb (forallb (fun xy => negb (conflict false P (fst xy) (snd xy)) || emem xy CE) (ordered_pairs pl)) in
